@@ -951,3 +951,74 @@ func VerifC19SnapVar(shape int, text int) {
 	vrt.Assert(zzC19Type(x) == zzC19Type(got), "restored variable value has another type")
 	vrt.Assert(slip.ObjectEqual(x, got), "restored variable value is not Equal to the saved one")
 }
+
+// ---------------------------------------------------------------------------
+// flavor methods: the defmethod list a flavor hands out (what the snapshot
+// and pp.Append of flavor:method use)
+// ---------------------------------------------------------------------------
+
+type zzC19MethT struct {
+	src    string
+	flavor string
+	method string
+	daemon string
+}
+
+var zzC19Meths = []zzC19MethT{
+	/* 0 */ {`(defflavor zzc19va ((a $i)) ()) (defmethod (zzc19va :foo) (x) $d (+ x a $i))`, "zzc19va", ":foo", ":primary"},
+	/* 1 */ {`(defflavor zzc19vb ((a $i) b) ()) (defmethod (zzc19vb :foo) (x) (list x)) (defmethod (zzc19vb :before :foo) (x) (setq b (list x $s)))`, "zzc19vb", ":foo", ":before"},
+	/* 2 */ {`(defflavor zzc19vc (a) ()) (defmethod (zzc19vc :after :bar) (x &optional (y $i)) $d (setq a (+ x y)))`, "zzc19vc", ":bar", ":after"},
+	/* 3 */ {`(defflavor zzc19vd (a) ()) (defmethod (zzc19vd :bar) (&rest r) (let ((n (length r))) (cond ((< n $i) r) (t (list n $s)))))`, "zzc19vd", ":bar", ":primary"},
+}
+
+type zzC19HasDML interface {
+	DefMethodList(method, daemon string, inherited bool) slip.List
+}
+
+func zzC19MethForm(flavor, method, daemon string) slip.Object {
+	c, _ := slip.FindClass(flavor).(zzC19HasDML)
+	if c == nil {
+		return nil
+	}
+	dml := c.DefMethodList(method, daemon, false)
+	if dml == nil {
+		return nil
+	}
+	return dml
+}
+
+// VerifC19FlavorMethod: the defmethod form a flavor gives for one of its
+// methods, evaluated for a renamed copy of the flavor, yields the same form
+// again; text != 0: concrete leaves, through pp.Append (symbolic margin) and
+// the reader first.
+func VerifC19FlavorMethod(tmpl int, text int) {
+	t := zzC19Meths[tmpl]
+	scope := slip.NewScope()
+	u := zzC19Sub{pre: "m", conc: text != 0}
+	code := slip.ReadString(t.src, scope)
+	mk := zzC19Run(func() slip.Object {
+		for _, f := range code {
+			scope.Eval(u.subst(f), 0)
+		}
+		return nil
+	})
+	vrt.Assert(mk.class == 0, "the flavor definition itself does not evaluate")
+	fl := zzC19Sexp(zzC19DefForm(t.flavor))
+	form := zzC19Sexp(zzC19MethForm(t.flavor, t.method, t.daemon))
+	vrt.Assert(fl != nil && form != nil, "no defmethod form for a defined method")
+	if text != 0 {
+		zzC19TextTrip(form, zzC19Margin())
+	}
+	renamed := zzC19Rename(form, t.flavor)
+	re := zzC19Run(func() slip.Object {
+		s2 := slip.NewScope()
+		s2.Eval(zzC19Rename(fl, t.flavor), 0)
+		return s2.Eval(zzC19Rename(form, t.flavor), 0)
+	})
+	vrt.Reach("reloaded")
+	vrt.Assert(re.class != 3, "Go run-time fault evaluating a defmethod form")
+	vrt.Assert(re.class == 0, "the defmethod form of a flavor method does not evaluate")
+	form2 := zzC19Sexp(zzC19MethForm(t.flavor+"-r", t.method, t.daemon))
+	vrt.Assert(form2 != nil, "the reloaded flavor has no such method")
+	vrt.Assert(zzC19Same(form2, renamed), "defmethod form of the reloaded method differs (no fixed point)")
+}
